@@ -440,6 +440,9 @@ func c03WholeGen(r *rand.Rand, tier string) *sim.Scn {
 			s.Ops = append(s.Ops, sim.Op{K: "junk", A: r.Int64N(7), C: r.Int64N(1000)})
 		}
 	}
+	if tier != "thorough" && s.Cfg["jitter"] > 400 {
+		s.Cfg["jitter"] = 400 // the slowest goroutines make a whole-node scenario take minutes: thorough tier only
+	}
 	return s
 }
 
